@@ -355,6 +355,15 @@ func (t *Trans) applyContract(fr *Frame, c *Contract, cname string, sig *types.S
 	if c.Trusted {
 		t.trustedUsed[c.Key] = true
 	}
+	if fr.top && fr.contract != nil {
+		for _, ab := range fr.contract.AssertBefore {
+			parts := strings.SplitN(ab.Label, "|", 2)
+			if strings.HasSuffix(cname, parts[0]) {
+				asc := &SpecCtx{t: t, fr: fr, st: fr.st, old: fr.entrySt, at: fr.curBlock}
+				t.oblige("assert", fmt.Sprintf("%s#assert.%s@%s", fr.path, labelOr(parts[1], "a"), parts[0]), tagsOr(ab.Tags, fr.tags), fr.curReach, asc.expandBool(ab.Expr), pos, "holds just before the call to "+cname)
+			}
+		}
+	}
 	for _, u := range c.Uses {
 		t.uses[u] = true
 	}
